@@ -161,7 +161,7 @@ class Body:
 
     def settle(self):
         self.xflag = None
-        for _ in range(4):
+        for _ in range(64):
             changed = False
             for it in self.always:
                 if it[1] == '*' or (isinstance(it[1], list) and all(e is None for e, _ in it[1])):
